@@ -109,7 +109,7 @@ def _chunk(lines):
                 lost = not conserved(text, got)
                 res["mism"].append(("conservation" if lost else ("separator_rule" if e["bal"] else "pieces"), text, got, want, "function"))
                 continue
-            if v == 0 and len(e["t"]) <= 4:
+            if len(e["t"]) <= 5:
                 key = ("author", "editor", "translator")[len(e["t"]) % 3]
                 try:
                     lst, back, title = via_middleware(bib, text, key)
